@@ -140,6 +140,13 @@ def match_close(toks, i):
     raise ValueError('unbalanced bracket starting at token %d (%s, line %d)' % (i, toks[i].text, toks[i].line))
 
 
+def canon_header(h):
+    """canonical impl header: single spaces between words, none around punctuation"""
+    h = re.sub(r'\s+', ' ', h.strip())
+    h = re.sub(r"\s*([<>:,+&'()\[\]=;])\s*", r'\1', h)
+    return h
+
+
 class ExtractError(Exception):
     pass
 
@@ -225,7 +232,7 @@ def find_items(src, toks=None):
             if t == 'struct' and body is None and toks[end].text == ';':
                 pass
             if t == 'impl':
-                name = ' '.join(x.text for x in toks[i:body]) if body else None
+                name = canon_header(' '.join(x.text for x in toks[i:body])) if body else None
             out.append((t, name, h, body, end))
             if t in ('impl', 'trait') and body is not None:
                 i = body + 1      # descend into the impl body
@@ -254,7 +261,7 @@ def extract(src, kind, name, impl=None, nth=0):
         rx = re.compile(impl)
         for (k, nm, h, body, end) in items:
             if k == 'impl' and nm is not None and rx.search(nm):
-                impl_ranges.append((body, end))
+                impl_ranges.append((body, end, nm))
         if not impl_ranges:
             raise ExtractError('impl block matching %r not found' % impl)
     cands = []
@@ -262,14 +269,17 @@ def extract(src, kind, name, impl=None, nth=0):
         if k != kind or nm != name:
             continue
         if impl is not None:
-            if not any(b < h and end <= e for (b, e) in impl_ranges):
+            hit = [nm2 for (b, e, nm2) in impl_ranges if b < h and end <= e]
+            if not hit:
                 continue
-        cands.append((h, body, end))
+            cands.append((h, body, end, hit[0]))
+            continue
+        cands.append((h, body, end, None))
     if len(cands) <= nth:
         raise ExtractError('%s %s (impl=%r, nth=%d) not found' % (kind, name, impl, nth))
-    h, body, end = cands[nth]
+    h, body, end, impl_header = cands[nth]
     start_byte, hj = _attr_start(src, toks, h)
     end_byte = toks[end].pos + len(toks[end].text)
     text = src[start_byte:end_byte]
-    return dict(text=text, start_line=src.count('\n', 0, start_byte) + 1,
+    return dict(text=text, impl_header=impl_header, start_line=src.count('\n', 0, start_byte) + 1,
                 end_line=src.count('\n', 0, end_byte) + 1)
